@@ -41,6 +41,10 @@ pub open spec fn rsum(n: int, f: spec_fn(int) -> real) -> real
 pub open spec fn scatter(n: int, idx: spec_fn(int) -> int, val: spec_fn(int) -> real, old: RArr) -> RArr
     decreases n
 { if n <= 0 { old } else { let p = scatter(n - 1, idx, val, old); RArr { len: p.len, at: |k: int| if k == idx(n - 1) { val(n - 1) } else { (p.at)(k) } } } }
+/// ... the usual case: the indices are the elements of a list
+pub open spec fn scatter_seq(list: Seq<int>, n: int, val: spec_fn(int) -> real, old: RArr) -> RArr
+    decreases n
+{ if n <= 0 { old } else { let p = scatter_seq(list, n - 1, val, old); RArr { len: p.len, at: |k: int| if k == list[n - 1] { val(n - 1) } else { (p.at)(k) } } } }
 pub open spec fn rpowi(x: real, n: int) -> real
     decreases n
 { if n <= 0 { 1real } else { x * rpowi(x, n - 1) } }
